@@ -83,7 +83,9 @@ def r11a(ctx, run):
             if not (heads & SUM_HEADS):
                 continue
             gives_up = "unreachable!" in diverge or "panic!" in diverge or "Ty::Unknown" in diverge
-            if not gives_up:
+            # a fall-through that does not give up still answers for a `distinct` of a sum type what it answers for a non-sum type
+            quiet_fallback = bool(diverge) and not gives_up and not ("absolute_ty()" in sc or "absolute_intern_ty(" in sc)
+            if not gives_up and not quiet_fallback:
                 continue
             sites.append((fn, n, sc, heads & SUM_HEADS, diverge))
     if len(sites) < 4:
@@ -93,13 +95,15 @@ def r11a(ctx, run):
         i = per_fn.get(fn.qual, 0)
         per_fn[fn.qual] = i + 1
         looks_through = "absolute_ty()" in sc or "absolute_intern_ty(" in sc
-        what = "%s: `%s` destructured as %s, otherwise %s" % (fn.qual, sc, sorted(heads), "panic" if "Ty::Unknown" not in diverge else "Unknown")
+        gives_up = "unreachable!" in diverge or "panic!" in diverge or "Ty::Unknown" in diverge
+        what = "%s: `%s` destructured as %s, otherwise %s" % (fn.qual, sc, sorted(heads), ("panic" if "Ty::Unknown" not in diverge else "Unknown") if gives_up else "`%s`" % diverge[:40])
         if looks_through:
             run.ok(fn.site(n["ln"]), what + " (absolute type)")
         else:
             run.finding(fn.qual, "structural-match-on-non-absolute#%d" % i, fn.file, n["ln"],
                         what + ": the scrutinee was admitted by a predicate that looks through `distinct` (ExpectedTy::SumType/Enum, is_sum_ty use absolute_ty), "
-                        "but this match sees the Distinct wrapper: switching over a `distinct` enum/optional/error union reaches the fall-through")
+                        "but this match sees the Distinct wrapper: switching over a `distinct` enum/optional/error union (or over a variant whose payload is one) reaches the "
+                        "fall-through and is treated like something else")
 
 
 def r11b(ctx, run):
